@@ -319,7 +319,9 @@ async def reconcile_krm_resource(
     else:
         owner_reffed = True
 
-    converted_resource = convert_bools(expected_resource)
+    converted_resource = _pin_identity(
+        convert_bools(expected_resource), forced_overlay
+    )
 
     last_applied = _extract_last_applied(api_resource.raw)
 
@@ -514,6 +516,28 @@ async def _construct_resource_template(
     return materialized
 
 
+def _pin_identity(converted_resource, forced_overlay: celtypes.MapType):
+    # `convert_bools` turns non-string map keys into text (bytes become their
+    # base64 form), so a key that was distinct from `kind`, `metadata` or `name`
+    # while the kind/name overlay was applied can land on one of them afterwards
+    # and replace it. The identity is therefore pinned again on the plain object.
+    if not isinstance(converted_resource, dict):
+        return converted_resource
+
+    for key, value in convert_bools(forced_overlay).items():
+        if key != "metadata":
+            converted_resource[key] = value
+            continue
+
+        metadata = converted_resource.get("metadata")
+        if not isinstance(metadata, dict):
+            metadata = {}
+            converted_resource["metadata"] = metadata
+        metadata.update(value)
+
+    return converted_resource
+
+
 async def _materialize_from_overlays(
     resource: celtypes.MapType,
     overlay_steps: Sequence[structure.InlineOverlay | structure.ValueFunctionOverlay],
@@ -681,6 +705,8 @@ async def _create_api_resource(
             message=f"Unexpected issue with encoding resource, received {type(converted_resource)}",
             location="<api-create-convert>",
         )
+
+    converted_resource = _pin_identity(converted_resource, forced_overlay)
 
     new_resource = resource_api(
         api=api,
